@@ -43,6 +43,8 @@ pub fn process_indels<IntT: for<'a> UInt<'a>>(
     .unwrap();
 
     let mut nb_indels = 0;
+    // records are collected and sorted so the output does not depend on hash iteration order
+    let mut vcf_lines: Vec<String> = Vec::new();
 
     // consider indels 1 by one
     for vec_variants in final_indels.values() {
@@ -94,7 +96,7 @@ pub fn process_indels<IntT: for<'a> UInt<'a>>(
                 .collect();
 
             // sort by frequency (descending) to find the most frequent variant
-            variants.sort_by(|a, b| b.1.cmp(&a.1));
+            variants.sort_by(|a, b| b.1.cmp(&a.1).then_with(|| a.0.cmp(&b.0)));
 
             let (ref_allele, _ref_count, ref_bitset) = &variants[0]; // most frequent (REF)
             let (alt_allele, _alt_count, alt_bitset) = &variants[1]; // less frequent (ALT)
@@ -117,18 +119,20 @@ pub fn process_indels<IntT: for<'a> UInt<'a>>(
                 })
                 .collect();
 
-            // Write the VCF line
-            writeln!(
-                writer,
+            // Store the VCF line
+            vcf_lines.push(format!(
                 ".\t.\t.\t{}\t{}\t.\tbefore={};after={}\t.\tGT\t{}",
                 ref_allele,
                 alt_allele,
                 first_kmer,
                 last_kmer,
                 sample_calls.join("\t")
-            )
-            .unwrap();
+            ));
         }
+    }
+    vcf_lines.sort_unstable();
+    for line in &vcf_lines {
+        writeln!(writer, "{line}").unwrap();
     }
 
     log::info!("{} indels", nb_indels);
